@@ -48,6 +48,8 @@ class C10(Property):
 
     def explicit_cases(self, ctx):
         for t in ['# c\nmatch x:\n    # c\n    case 1: pass\n', 'x = 1 # c\n\n\ntype X = int\n', '#\n#\nmatch = 1\n', 'if x:\n    # c\n\n    match y:\n        case _: pass\n',
+                  '1' + '0' * 400 + 'j\n', '9' * 310 + 'J\n', '1' + '0' * 308 + 'j\n', '1' + '0' * 400 + '\n', '1' + '0' * 400 + '.0\n', 'x = (1,\n \t2)\n', 'x = [\n \t1]\n',
+                  'lambda x=1: x\n', 'lambda a, *, k=None: a\n', 'f = lambda a, **kw: a\n',
                   '18446744073709551616\n', '0x' + 'f' * 40 + '\n', '1_000_000_000_000_000_000_000_000\n', 'x = (\n # c\n 1)\n', '\\\n# c\nx', '(\n#c\n', "f'{x # c\n}'",
                   'type X = int # c\n', 'class C: # c\n  # c\n\n  pass\n', 'match x: # c\n  case 1: # c\n    pass # c\n', '# only a comment', '\n\n\n', 'case = 1 # c\ncase: int\n']:
             for mode in ('exec', 'single', 'eval'):
